@@ -109,6 +109,14 @@ def run(ctx, rep, tier):
         n += 1
         if len(samples) < 8 and info and info.get("text"):
             samples.append(dict(primary=name, program_body=body_of(info["text"])))
+    # (i') every numeric / permission primary under '!': the constants stay symbolic (a rewrite of `! cmp` into the opposite
+    # comparison must be right for every constant, also the boundary ones)
+    for name, v, assume, mk in [l for l in leaves if isinstance(l[2], list) and any(k in l[0] for k in ("GreaterThan", "LesserThan", "Equal", "-perm"))]:
+        if tier == "quick" and not any(k in name for k in ("-uid", "-links", "-size LesserThan KiloByte", "-size GreaterThan Block", "-mtime LesserThan Day", "-perm AtLeast")):
+            continue
+        neg = Adt("Expression", "Operator", [BoxV(Adt("Operator", "Not", [v]), "Rc")])
+        one("not%d" % n, neg, assume, lambda m, mk=mk: '(not (s "%s"))' % esc(mk(m)) if m is not None else '(not (s "%s"))' % esc(safe(mk)), [name])
+        n += 1
     n_leaf = n
     # (ii) operator trees over a leaf alphabet with symbolic constants
     alpha = [l for l in leaves if l[0] in ("-true", "-false", "-executable", "-name foo", "-iname foo", "-name 'f*'", "-uid GreaterThan", "-size LesserThan KiloByte",
